@@ -34,8 +34,10 @@ func Range(start, end, step int) SortedInts {
 	}
 
 	if end < start {
-		start, end = end, start
+		//The elements are start, start+step, ... > end. List them in ascending order.
 		step = -step
+		first := start - ((start-end-1)/step)*step
+		start, end = first, start+1
 	}
 
 	tmp := make([]int, 0, (end-start+step-1)/step)
